@@ -630,6 +630,7 @@ STEPS = {
     "U": "(parameters not set yet)", "N": "set_prms(negative mean)", "A": "set_prms(A)",
     "E": "set_prms(A perturbed by less than any tolerance)", "T": "driver := driver scaled below any tolerance",
     "Q": "lifetime_model.inflow_at assigned another value",
+    "I": "the parameter arrays passed last time edited in place (values of B), then set_prms(the same objects)",
 }
 
 
@@ -688,6 +689,7 @@ def case_history(prog, cfg, cls_name, hist):
     st, lm = r
     version, driver = (None if unset else "A"), d1
     quadrature_changed = False
+    last_prms = None
     for i, step in enumerate(hist):
         if step == "U":
             continue
@@ -716,6 +718,22 @@ def case_history(prog, cfg, cls_name, hist):
                 case.v("recompute", False, f"step {i} set_prms ended with {kind}: {r}", f"{dist}.set_prms")
                 return case
             version = v
+            last_prms = prms
+        elif step == "I":
+            # the parameter arrays handed over last time are edited IN PLACE (a sensitivity loop writing into mfa.parameters[...]) and the
+            # very same objects are handed to set_prms again
+            if not dsm or not last_prms or not all(isinstance(x, Obj) for x in last_prms.values()):
+                continue
+            for nm, arr in last_prms.items():
+                newv, _ = sw.param(nm, cfg["over"], "B")
+                k_, r_ = run_guarded(lambda: sw.it.call_method(arr, "__setitem__", Ellipsis, values(newv).copy()))
+                if k_ != "ok":
+                    raise AnalysisAbort(f"in-place edit of a parameter array failed: {r_}")
+            kind, r = run_guarded(lambda: sw.it.call_method(lm, "set_prms", **last_prms))
+            if kind != "ok":
+                case.v("recompute", False, f"step {i} set_prms ended with {kind}: {r}", f"{dist}.set_prms")
+                return case
+            version = "B"
         elif step in ("D", "Z", "T"):
             driver = d2 if step == "D" else (zero if step == "Z" else S.elementwise(lambda x: x * Rat.sym("eps", "pos"), d2))
             arr = st.f[drv_name]
